@@ -10,6 +10,8 @@ import (
 	"fmt"
 	"os"
 	"path/filepath"
+	"regexp"
+	"sort"
 
 	"github.com/Chocapikk/pgread/pgdump"
 )
@@ -141,5 +143,54 @@ func init() {
 		defer os.RemoveAll(dir)
 		c15cluster(c15dump(a[0]), dir)
 		return c15search(pgdump.Search(dir, c15opts(a[1:])))
+	})
+	// QuickSearch (literal text, case-insensitive, rows attached) on such a directory
+	register("QuickSearchDir", func(a []string) string {
+		dir, err := os.MkdirTemp(os.Getenv("VERIF_TMP"), "c15-cluster-")
+		if err != nil {
+			panic("harness: c15 tmp dir")
+		}
+		defer os.RemoveAll(dir)
+		c15cluster(c15dump(a[0]), dir)
+		return c15search(pgdump.QuickSearch(dir, string(unhex(a[1]))))
+	})
+	// ScanForSecrets and its deprecated re-shaping SearchSecrets on such a directory (real detectors; coordinates only)
+	register("SecretsDir", func(a []string) string {
+		dir, err := os.MkdirTemp(os.Getenv("VERIF_TMP"), "c15-cluster-")
+		if err != nil {
+			panic("harness: c15 tmp dir")
+		}
+		defer os.RemoveAll(dir)
+		c15cluster(c15dump(a[0]), dir)
+		uniq := func(keys []string) string {
+			sort.Strings(keys)
+			var out []string
+			for i, k := range keys {
+				if i == 0 || k != keys[i-1] {
+					out = append(out, k)
+				}
+			}
+			return cList(out)
+		}
+		fs, err := pgdump.ScanForSecrets(dir, &pgdump.Options{})
+		if err != nil {
+			return "err"
+		}
+		var k1, k2 []string
+		for _, f := range fs {
+			k1 = append(k1, fmt.Sprintf("%s/%s/%d/%s", f.Database, f.Table, f.RowIndex, f.Column))
+		}
+		rs, err := pgdump.SearchSecrets(dir)
+		if err != nil {
+			return "err"
+		}
+		for _, r := range rs {
+			k2 = append(k2, fmt.Sprintf("%s/%s/%d/%s", r.Database, r.Table, r.RowNum, r.Column))
+		}
+		return uniq(k1) + "|" + uniq(k2)
+	})
+	// Go's regexp.QuoteMeta: the library function the model of QuickSearch relies on
+	register("QuoteMeta", func(a []string) string {
+		return cStr(regexp.QuoteMeta(string(unhex(a[0]))))
 	})
 }
